@@ -183,8 +183,12 @@ Section Accepted.
 
   (* whenever the checker accepts e (in a well-formed state, with any fuel), the optional simple type is
      defined and the class of the value of e has that base type as head *)
+  (* an invariant of the type graph that every extension keeps (the types of the variables in scope: SoundE1) *)
+  Variable Inv : st -> Prop.
+  Hypothesis Inv_ext : forall s s', wf s -> ext s s' -> Inv s -> Inv s'.
+
   Definition sound_expr (e : expr) (ot : option bty) : Prop :=
-    forall f ctx s r s', wf s -> r_expr (afix f) e ctx s = Ok (r, s') ->
+    forall f ctx s r s', wf s -> Inv s -> r_expr (afix f) e ctx s = Ok (r, s') ->
       wf s' /\ ext s s' /\ exists t, ot = Some t /\ head s' (snd r) = Some (bty_head t).
 
   Lemma rigid_bty t : rigid (bty_head t) = true.
@@ -212,7 +216,7 @@ Section Accepted.
 
   Lemma sound_lit e t : lit_type e = Some (bty_head t) -> sound_expr e (Some t).
   Proof.
-    intros L f ctx s r s' W H.
+    intros L f ctx s r s' W HI H.
     destruct (lit_spec kinds G f e _ ctx s r s' L (rigid_bty t) W H) as (W' & E' & Hh). eauto 6.
   Qed.
 
@@ -220,7 +224,7 @@ Section Accepted.
 
   (* what a successful bin_op tells *)
   Lemma bin_op_inv a b oa ob sp ctx con f s er ex s1 :
-    sound_expr a oa -> sound_expr b ob -> wf s ->
+    sound_expr a oa -> sound_expr b ob -> wf s -> Inv s ->
     bin_op G (afix f) sp ctx a b con s = Ok ((er, ex), s1) ->
     wf s1 /\ ext s s1 /\ exists ta tb y,
       oa = Some ta /\ ob = Some tb /\
@@ -228,11 +232,11 @@ Section Accepted.
       ((forall g' s', wf s' -> head s' ex = Some (bty_head ta) -> head s' y = Some (bty_head tb) ->
                       notok (check_one (gfix g') sp ex (con y) s')) -> False).
   Proof.
-    intros Sa Sb W H. unfold bin_op in H.
+    intros Sa Sb W HI H. unfold bin_op in H.
     apply bind_inv in H as ([ar x] & sa & Ha & H).
-    destruct (Sa _ _ _ _ _ W Ha) as (Wa & Ea & (ta & -> & Hx)). cbn [snd] in Hx.
+    destruct (Sa _ _ _ _ _ W HI Ha) as (Wa & Ea & (ta & -> & Hx)). cbn [snd] in Hx.
     apply bind_inv in H as ([br y] & sb & Hb & H).
-    destruct (Sb _ _ _ _ _ Wa Hb) as (Wb & Eb & (tb & -> & Hy)). cbn [snd] in Hy.
+    destruct (Sb _ _ _ _ _ Wa (Inv_ext _ _ W Ea HI) Hb) as (Wb & Eb & (tb & -> & Hy)). cbn [snd] in Hy.
     pose proof (head_keep _ _ _ _ Eb Hx (rigid_bty ta)) as Hx2.
     apply bind_inv in H as (u3 & s3 & H3 & H).
     destruct (add_constraint_spec _ _ _ _ _ Wb H3) as (W3 & E3 & Hd3 & _ & C3 & _).
@@ -272,12 +276,12 @@ Section Accepted.
     sound_expr a oa -> sound_expr b ob ->
     sound_expr (EBinOp op a b sp) (lift2 (bin_ty op) oa ob).
   Proof.
-    intros Hop Sa Sb f ctx s r s' W H. destruct f as [|f]; [discriminate|]. apply expr_inv in H. unfold expr_body in H.
+    intros Hop Sa Sb f ctx s r s' W HI H. destruct f as [|f]; [discriminate|]. apply expr_inv in H. unfold expr_body in H.
     apply bind_inv in H as ([er ex] & s1 & H1 & H).
     assert (Hb : bin_op G (afix f) sp ctx a b
                    (match k with AAdd => CAdd | ASub => CSub | AMul => CMul | ACmp => CCmp end) s = Ok ((er, ex), s1)).
     { destruct Hop as [[-> ->]|[[-> ->]|[-> ->]]]; exact H1. }
-    destruct (bin_op_inv _ _ _ _ _ _ _ _ _ _ _ _ Sa Sb W Hb) as (W1 & E1 & (ta & tb & y & -> & -> & Hx & Hy & Hook)).
+    destruct (bin_op_inv _ _ _ _ _ _ _ _ _ _ _ _ Sa Sb W HI Hb) as (W1 & E1 & (ta & tb & y & -> & -> & Hx & Hy & Hook)).
     assert (Bk : arith_base_ok k (bty_head ta) (bty_head tb) = true).
     { destruct (arith_base_ok k (bty_head ta) (bty_head tb)) eqn:Bk; [reflexivity|]. exfalso. apply Hook.
       intros g' s0 W0 Hx0 Hy0.
@@ -294,11 +298,11 @@ Section Accepted.
     sound_expr a oa -> sound_expr b ob ->
     sound_expr (EBinOp op a b sp) (lift2 (bin_ty op) oa ob).
   Proof.
-    intros Hop Sa Sb f ctx s r s' W H. destruct f as [|f]; [discriminate|]. apply expr_inv in H. unfold expr_body in H.
+    intros Hop Sa Sb f ctx s r s' W HI H. destruct f as [|f]; [discriminate|]. apply expr_inv in H. unfold expr_body in H.
     apply bind_inv in H as ([er ex] & s1 & H1 & H).
     assert (Hb : bin_op_ret G (afix f) sp ctx a b CCmp HBool s = Ok ((er, ex), s1)) by (destruct Hop as [-> | ->]; exact H1).
     unfold bin_op_ret in Hb. apply bind_inv in Hb as ([r0 x0] & s2 & Hb & Hp).
-    destruct (bin_op_inv _ _ _ _ _ _ _ _ _ _ _ _ Sa Sb W Hb) as (W2 & E2 & (ta & tb & y & -> & -> & Hx & Hy & Hook)).
+    destruct (bin_op_inv _ _ _ _ _ _ _ _ _ _ _ _ Sa Sb W HI Hb) as (W2 & E2 & (ta & tb & y & -> & -> & Hx & Hy & Hook)).
     apply bind_inv in Hp as (t & s3 & Hp & Hr). injection Hr as <- <- <-.
     destruct (push_spec _ _ _ _ W2 Hp) as (W3 & E3 & Ht).
     assert (Bk : arith_base_ok ACmp (bty_head ta) (bty_head tb) = true).
@@ -315,11 +319,11 @@ Section Accepted.
     sound_expr a oa -> sound_expr b ob ->
     sound_expr (EBinOp op a b sp) (lift2 (bin_ty op) oa ob).
   Proof.
-    intros Hop Sa Sb f ctx s r s' W H. destruct f as [|f]; [discriminate|]. apply expr_inv in H. unfold expr_body in H.
+    intros Hop Sa Sb f ctx s r s' W HI H. destruct f as [|f]; [discriminate|]. apply expr_inv in H. unfold expr_body in H.
     apply bind_inv in H as ([er ex] & s1 & H1 & H).
     assert (Hb : bin_op_ret G (afix f) sp ctx a b CCmpEqu HBool s = Ok ((er, ex), s1)) by (destruct Hop as [-> | ->]; exact H1).
     unfold bin_op_ret in Hb. apply bind_inv in Hb as ([r0 x0] & s2 & Hb & Hp).
-    destruct (bin_op_inv _ _ _ _ _ _ _ _ _ _ _ _ Sa Sb W Hb) as (W2 & E2 & (ta & tb & y & -> & -> & Hx & Hy & Hook)).
+    destruct (bin_op_inv _ _ _ _ _ _ _ _ _ _ _ _ Sa Sb W HI Hb) as (W2 & E2 & (ta & tb & y & -> & -> & Hx & Hy & Hook)).
     apply bind_inv in Hp as (t & s3 & Hp & Hr). injection Hr as <- <- <-.
     destruct (push_spec _ _ _ _ W2 Hp) as (W3 & E3 & Ht).
     assert (Ok' : bin_ty GreaterEqual ta tb = Some TB).
@@ -343,11 +347,11 @@ Section Accepted.
     sound_expr a oa -> sound_expr b ob ->
     sound_expr (EBinOp op a b sp) (lift2 (bin_ty op) oa ob).
   Proof.
-    intros Hop Sa Sb f ctx s r s' W H. destruct f as [|f]; [discriminate|]. apply expr_inv in H. unfold expr_body in H.
+    intros Hop Sa Sb f ctx s r s' W HI H. destruct f as [|f]; [discriminate|]. apply expr_inv in H. unfold expr_body in H.
     apply bind_inv in H as ([er ex] & s1 & H1 & H).
     assert (Hb : bin_op_ret G (afix f) sp ctx a b CEqu HBool s = Ok ((er, ex), s1)) by (destruct Hop as [-> |[-> | ->]]; exact H1).
     unfold bin_op_ret in Hb. apply bind_inv in Hb as ([r0 x0] & s2 & Hb & Hp).
-    destruct (bin_op_inv _ _ _ _ _ _ _ _ _ _ _ _ Sa Sb W Hb) as (W2 & E2 & (ta & tb & y & -> & -> & Hx & Hy & Hook)).
+    destruct (bin_op_inv _ _ _ _ _ _ _ _ _ _ _ _ Sa Sb W HI Hb) as (W2 & E2 & (ta & tb & y & -> & -> & Hx & Hy & Hook)).
     apply bind_inv in Hp as (t & s3 & Hp & Hr). injection Hr as <- <- <-.
     destruct (push_spec _ _ _ _ W2 Hp) as (W3 & E3 & Ht).
     assert (Eq : bty_eqb ta tb = true).
@@ -365,7 +369,7 @@ Section Accepted.
     sound_expr a oa -> sound_expr b ob ->
     sound_expr (EBinOp op a b sp) (lift2 (bin_ty op) oa ob).
   Proof.
-    intros Hop Sa Sb f ctx s r s' W H. destruct f as [|f]; [discriminate|]. apply expr_inv in H. unfold expr_body in H.
+    intros Hop Sa Sb f ctx s r s' W HI H. destruct f as [|f]; [discriminate|]. apply expr_inv in H. unfold expr_body in H.
     apply bind_inv in H as ([er ex] & s1 & H1 & H).
     assert (Hb : (x <- r_expr (afix f) a ctx;;
                   (let '(a_ret, a0) := x in
@@ -376,9 +380,9 @@ Section Accepted.
                     r <- unify_option G sp a_ret b_ret;; ret (r, a0)))) s = Ok ((er, ex), s1))
       by (destruct Hop as [-> | ->]; exact H1).
     apply bind_inv in Hb as ([ar x] & sa & Ha & Hb).
-    destruct (Sa _ _ _ _ _ W Ha) as (Wa & Ea & (ta & -> & Hx)). cbn [snd] in Hx.
+    destruct (Sa _ _ _ _ _ W HI Ha) as (Wa & Ea & (ta & -> & Hx)). cbn [snd] in Hx.
     apply bind_inv in Hb as ([br y] & sb & Hbb & Hb).
-    destruct (Sb _ _ _ _ _ Wa Hbb) as (Wb & Eb & (tb & -> & Hy)). cbn [snd] in Hy.
+    destruct (Sb _ _ _ _ _ Wa (Inv_ext _ _ W Ea HI) Hbb) as (Wb & Eb & (tb & -> & Hy)). cbn [snd] in Hy.
     apply bind_inv in Hb as (bo & s3 & Hp & Hb). destruct (push_spec _ _ _ _ Wb Hp) as (W3 & E3 & Hbo).
     apply bind_inv in Hb as (u4 & s4 & H4 & Hb).
     destruct (unify_result_head _ _ _ _ _ _ _ W3 H4) as (W4 & E4 & _ & Heq4).
@@ -413,10 +417,10 @@ Section Accepted.
   Lemma sound_not a oa sp :
     sound_expr a oa -> sound_expr (EUniOp Not a sp) (match oa with Some t => un_ty Not t | None => None end).
   Proof.
-    intros Sa f ctx s r s' W H. destruct f as [|f]; [discriminate|]. apply expr_inv in H. unfold expr_body in H.
+    intros Sa f ctx s r s' W HI H. destruct f as [|f]; [discriminate|]. apply expr_inv in H. unfold expr_body in H.
     apply bind_inv in H as ([er ex] & s1 & H1 & H). cbv beta iota in H1.
     apply bind_inv in H1 as ([ar x] & sa & Ha & H1).
-    destruct (Sa _ _ _ _ _ W Ha) as (Wa & Ea & (ta & -> & Hx)). cbn [snd] in Hx.
+    destruct (Sa _ _ _ _ _ W HI Ha) as (Wa & Ea & (ta & -> & Hx)). cbn [snd] in Hx.
     apply bind_inv in H1 as (bo & s3 & Hp & H1). destruct (push_spec _ _ _ _ Wa Hp) as (W3 & E3 & Hbo).
     apply bind_inv in H1 as (u & s4 & H4 & H1). injection H1 as <- <- <-.
     destruct (unify_result_head _ _ _ _ _ _ _ W3 H4) as (W4 & E4 & Hru & Heq4).
@@ -436,10 +440,10 @@ Section Accepted.
   Lemma sound_neg a oa sp :
     sound_expr a oa -> sound_expr (EUniOp Neg a sp) (match oa with Some t => un_ty Neg t | None => None end).
   Proof.
-    intros Sa f ctx s r s' W H. destruct f as [|f]; [discriminate|]. apply expr_inv in H. unfold expr_body in H.
+    intros Sa f ctx s r s' W HI H. destruct f as [|f]; [discriminate|]. apply expr_inv in H. unfold expr_body in H.
     apply bind_inv in H as ([er ex] & s1 & H1 & H). cbv beta iota in H1.
     apply bind_inv in H1 as ([ar x] & sa & Ha & H1).
-    destruct (Sa _ _ _ _ _ W Ha) as (Wa & Ea & (ta & -> & Hx)). cbn [snd] in Hx.
+    destruct (Sa _ _ _ _ _ W HI Ha) as (Wa & Ea & (ta & -> & Hx)). cbn [snd] in Hx.
     apply bind_inv in H1 as (u2 & s2 & H2 & H1).
     destruct (add_constraint_spec _ _ _ _ _ Wa H2) as (W2 & E2 & Hd2 & _ & C2 & _).
     apply bind_inv in H1 as (u3 & s3 & H3 & H1). injection H1 as <- <- <-.
@@ -459,20 +463,20 @@ Section Accepted.
   (* a block that consists of one expression statement: its value is the value of the expression
      (the checker looks at the expression twice: once as a statement, once as the value of the block) *)
   Lemma block_single a oa sp sp1 f ctx s r ov s' :
-    sound_expr a oa -> wf s ->
+    sound_expr a oa -> wf s -> Inv s ->
     expression_block G (afix f) sp [SStatementExpression a sp1] ctx s = Ok ((r, ov), s') ->
     wf s' /\ ext s s' /\ exists ta v, oa = Some ta /\ ov = Some v /\ head s' v = Some (bty_head ta).
   Proof.
-    intros Sa W H. unfold expression_block in H. cbn [foldM last_stmt] in H.
+    intros Sa W HI H. unfold expression_block in H. cbn [foldM last_stmt] in H.
     apply bind_inv in H as (r1 & s1 & H1 & H).
     apply bind_inv in H1 as (b' & s2 & H1 & Hr). injection Hr as <- <-.
     apply bind_inv in H1 as (sr & s3 & Hs & Hu).
     destruct f as [|f]; [discriminate|]. cbn [Tc.afix astep r_stmt] in Hs. unfold stmt_body in Hs.
     apply bind_inv in Hs as ([r0 v0] & s4 & He & Hs). injection Hs as <- <-.
-    destruct (Sa _ _ _ _ _ W He) as (W4 & E4 & _).
+    destruct (Sa _ _ _ _ _ W HI He) as (W4 & E4 & _).
     assert (s2 = s4) by (destruct r0; cbn in Hu; injection Hu as _ <-; reflexivity). subst s2.
     apply bind_inv in H as ([vret v] & s5 & He2 & H).
-    destruct (Sa _ _ _ _ _ W4 He2) as (W5 & E5 & (ta & -> & Hv)). cbn [snd] in Hv.
+    destruct (Sa _ _ _ _ _ W4 (Inv_ext _ _ W E4 HI) He2) as (W5 & E5 & (ta & -> & Hv)). cbn [snd] in Hv.
     apply bind_inv in H as (r' & s6 & H6 & H). injection H as _ <- <-.
     assert (P6 : pres (unify_option G sp b' vret)) by prs. destruct (P6 _ _ _ W5 H6) as [W6 E6].
     split; [assumption|]. split; [eapply ext_trans; [exact E4|]; eapply ext_trans; eassumption|].
@@ -491,14 +495,14 @@ Section Accepted.
     sound_expr (EIf [IfBranch (Some c) [SStatementExpression a sp] sp; IfBranch None [SStatementExpression b sp] sp] sp)
                (if_ty oc oa ob).
   Proof.
-    intros Sc Sa Sb f ctx s r s' W H. destruct f as [|f]; [discriminate|]. apply expr_inv in H. unfold expr_body in H.
+    intros Sc Sa Sb f ctx s r s' W HI H. destruct f as [|f]; [discriminate|]. apply expr_inv in H. unfold expr_body in H.
     apply bind_inv in H as ([er ex] & s1 & H1 & H). cbv beta iota in H1.
     apply bind_inv in H1 as (tys & s2 & Hm & H1). cbn [mapM] in Hm.
     (* first branch *)
     apply bind_inv in Hm as ([r1 v1] & s3 & Hb1 & Hm). unfold if_branch in Hb1.
     apply bind_inv in Hb1 as (cret & s4 & Hc & Hb1).
     apply bind_inv in Hc as ([cr ct] & s5 & Hce & Hc).
-    destruct (Sc _ _ _ _ _ W Hce) as (W5 & E5 & (tc & -> & Hct)). cbn [snd] in Hct.
+    destruct (Sc _ _ _ _ _ W HI Hce) as (W5 & E5 & (tc & -> & Hct)). cbn [snd] in Hct.
     apply bind_inv in Hc as (bo & s6 & Hp & Hc). destruct (push_spec _ _ _ _ W5 Hp) as (W6 & E6 & Hbo).
     apply bind_inv in Hc as (u7 & s7 & H7 & Hc). injection Hc as <- <-.
     destruct (unify_result_head _ _ _ _ _ _ _ W6 H7) as (W7 & E7 & _ & _).
@@ -509,7 +513,9 @@ Section Accepted.
       - rewrite <- (shape_bty TB tc) in Eq. exact Eq. }
     subst tc.
     apply bind_inv in Hb1 as ([bret bval] & s8 & Hblk & Hb1).
-    destruct (block_single _ _ _ _ _ _ _ _ _ _ Sa W7 Hblk) as (W8 & E8 & (ta & va & -> & -> & Hva)).
+    assert (I7 : Inv s7)
+      by (eapply Inv_ext; [exact W| |exact HI]; eapply ext_trans; [exact E5|]; eapply ext_trans; [exact E6|exact E7]).
+    destruct (block_single _ _ _ _ _ _ _ _ _ _ Sa W7 I7 Hblk) as (W8 & E8 & (ta & va & -> & -> & Hva)).
     apply bind_inv in Hb1 as (ru & s9 & H9 & Hb1). injection Hb1 as <- <- <-.
     assert (P9 : pres (unify_option G sp cr bret)) by prs. destruct (P9 _ _ _ W8 H9) as [W9 E9].
     (* second branch *)
@@ -518,7 +524,8 @@ Section Accepted.
     injection Hn as <- <-. injection Hm as <- <-.
     unfold if_branch in Hb2. rewrite (bind_ok (ret None) _ s9 None s9 eq_refl) in Hb2.
     apply bind_inv in Hb2 as ([bret2 bval2] & s13 & Hblk2 & Hb2).
-    destruct (block_single _ _ _ _ _ _ _ _ _ _ Sb W9 Hblk2) as (W13 & E13 & (tb & vb & -> & -> & Hvb)).
+    assert (I9 : Inv s9) by (eapply Inv_ext; [exact W7| |exact I7]; eapply ext_trans; [exact E8|exact E9]).
+    destruct (block_single _ _ _ _ _ _ _ _ _ _ Sb W9 I9 Hblk2) as (W13 & E13 & (tb & vb & -> & -> & Hvb)).
     apply bind_inv in Hb2 as (ru2 & s14 & H14 & Hb2). injection Hb2 as <- <- <-.
     assert (P14 : pres (unify_option G sp None bret2)) by prs. destruct (P14 _ _ _ W13 H14) as [W14 E14].
     (* the joins *)
@@ -601,7 +608,7 @@ Theorem C02_E0 : forall farith fneg fcmp of_int scmp kinds g f ctx sp (e : e0) s
   exists v t, eval farith fneg fcmp of_int scmp e = Some v /\ tag v = t /\ head s' (snd r) = Some (bty_head t).
 Proof.
   intros farith fneg fcmp of_int scmp kinds g f ctx sp e s r s' Hf W H.
-  destruct (accepted_simply_typed kinds g sp e Hf f ctx s r s' W H) as (_ & _ & (t & Ht & Hh)).
+  destruct (accepted_simply_typed kinds g (fun _ => True) (fun _ _ _ _ _ => I) sp e Hf f ctx s r s' W I H) as (_ & _ & (t & Ht & Hh)).
   destruct (simply_typed_sound farith fneg fcmp of_int scmp e t Ht) as (v & Hv & Tv).
   exists v, t. auto.
 Qed.
